@@ -185,7 +185,9 @@ def ws_expect(state: str, name: str) -> Tuple[str, str]:
         return "raise", state  # anything after completion
     if t == "websocket.accept":
         if state != "HANDSHAKE":
-            return "any", "?" if state == "RESPONSE" else state
+            # (after websocket.http.response.start nothing is on the wire yet: a server may still
+            # accept, or refuse - the statement does not say, so what follows is unconstrained)
+            return "any", "?" if state in ("RESPONSE", "HSTART") else state
         if bad_header_payload(msg):
             return "raise", state
         if has_ctl(msg):
